@@ -325,6 +325,20 @@ def one_call(ctx, case, kind, st, rng, hold, objs, run, r_idx, sess, m):
     sess["container"], sess["container_key"] = cb_arg, key
     if pre is not None:
         st.stop_training = pre
+    # refused stop requests (non-bool values raise ValueError) must leave the flag exactly as it was
+    if run.get("bad_stop", True):
+        before_flag = st._stop_training if hasattr(st, "_stop_training") else st.stop_training
+        refused_ok = True
+        for bad in (1, 0, "yes", None, np.True_, np.False_, [True]):
+            try:
+                st.stop_training = bad
+                refused_ok = False
+            except ValueError:
+                pass
+            refused_ok = refused_ok and (st.stop_training is before_flag or st.stop_training == before_flag and isinstance(st.stop_training, bool))
+        ctx.oracle("a refused stop request (non-bool) raises ValueError and leaves the flag unchanged", bool(refused_ok), ctx.current_case,
+                   detail={"flag_before": bool(before_flag), "flag_after": repr(st.stop_training)}, sig=f"{kind}/refused-stop-request",
+                   theorem="C12_sticky / C12_stopped_run_is_noop (the flag is only changed by a valid request)")
     stop0 = (sess["stop"] if pre is None else pre)  # expected flag at entry: left by the previous call unless reassigned
     flag_at_entry = bool(st.stop_training)
     h_before = param_hash(st)
